@@ -202,8 +202,8 @@ def thorough_list(prop, seed, cap):
     space = [s for s in space if show(s) not in cur]
     rnd.shuffle(space)
     costs = _costs()
-    # every curated shape except the few whose measured cost exceeds 2000 CPU s (they are listed in the evidence as left out)
-    base = [sh for sh in CURATED if costs.get(show(sh), 0) <= 2000]
+    # every curated shape except the few whose measured cost exceeds 1000 CPU s
+    base = [sh for sh in CURATED if costs.get(show(sh), 0) <= 1000]
     return base + space[:cap]
 
 
